@@ -247,7 +247,10 @@ def run_harness(ctx, binpath, module, behaviours, name, shards=None, timeout=900
                     # the process ended: a Go runtime fatal error (concurrent map writes, ...) or a panic in a goroutine nobody
                     # recovers (a listener's, a relay's).  It counts as the teamserver's own end when the goroutine that ran
                     # into it was in its code
-                    blk = log[m.start():].split("\n\n")[1] if "\n\n" in log[m.start():] else ""
+                    # the block after the message is the faulting goroutine's stack; a throw on the system stack (stack overflow, out of
+                    # memory) prints a "runtime stack:" block first
+                    blks = [b for b in log[m.start():].split("\n\n")[1:] if not b.startswith("runtime stack:")]
+                    blk = blks[0] if blks else ""
                     frames = re.findall(r"^([\w./*()\-]+)\(", blk, re.M)
                     first = next((f for f in frames if not f.startswith(("runtime.", "sync.", "internal/"))), "")
                     if first.startswith("Havoc/"):
